@@ -236,7 +236,13 @@ class World:
         o = self.pick(op['i'])
         if o is None:
             return
-        o.x.config.rounding, o.x.config.overflow = op['modes']
+        if op.get('mirror'):
+            # the object's own rounding / overflow attributes mirror its configuration
+            o.x.rounding, o.x.overflow = op['modes']
+            if (o.x.config.rounding, o.x.config.overflow) != tuple(op['modes']) or (o.x.rounding, o.x.overflow) != tuple(op['modes']):
+                raise Mismatch('set_mode/mirror-attribute-not-stored', {'config': [o.x.config.rounding, o.x.config.overflow]})
+        else:
+            o.x.config.rounding, o.x.config.overflow = op['modes']
         o.modes = tuple(op['modes'])
 
     def op_reset(self, op):
@@ -586,7 +592,7 @@ def op_strategies():
         'reset#2': st.fixed_dictionaries({'i': st.integers(0, 7)}),
         'write_fxp': st.fixed_dictionaries({'i': st.integers(0, 7), 'j': st.integers(0, 7), 'route': st.sampled_from(['call', 'set_val', 'equal', 'setitem']),
                                             'idx': st.integers(0, 7)}),
-        'set_mode': st.fixed_dictionaries({'i': st.integers(0, 7), 'modes': C.st_modes().map(list)}),
+        'set_mode': st.fixed_dictionaries({'i': st.integers(0, 7), 'modes': C.st_modes().map(list), 'mirror': st.booleans()}),
         'reset': st.fixed_dictionaries({'i': st.integers(0, 7)}),
         'resize': st.fixed_dictionaries({'i': st.integers(0, 7), 'fmt': fmt.map(list)}),
         'arith': st.fixed_dictionaries({'i': st.integers(0, 7), 'j': st.integers(0, 7), 'name': st.sampled_from(['add', 'sub', 'mul', 'truediv', 'floordiv', 'mod']),
